@@ -22,6 +22,7 @@ PROPS["C17"] = dict(
           "field that has a leading zero nibble, or string with a non-ASCII rune; distinct by SHA-256 of (GUIDs, string)."),
     assumptions=["reference GUID codec ref/guid (validated against GUID strings pinned in the repository's tests)",
                  "Go's unicode/utf16 as the UTF-16 reference"],
+    arch386=True,  # one more shard runs the same check built with GOARCH=386 (32-bit int/uint); left out with a note where such a binary cannot run
     quick=dict(checks=25000, shards=2, timeout=600),
     thorough=dict(checks=250000, shards=16, timeout=3000),
 )
@@ -271,6 +272,7 @@ PROPS["C18"] = dict(
     rule=("evaluations = boot numbers enumerated + generated cases. Non-trivial = boot number containing a hex letter (a-f), or load option with >= 3 nodes; distinct by the boot number resp. SHA-256 of the case."),
     assumptions=["testfs in-memory store as the variable backend"],
     exhaustive_note="all 65536 boot numbers in every run of both tiers (class exhaustive_boot_numbers must total 65536)",
+    arch386=True,
     quick=dict(checks=4000, shards=2, timeout=600),
     thorough=dict(checks=60000, shards=16, timeout=3000),
 )
